@@ -113,6 +113,84 @@ def step (p : Prob) (op : Op) : Prob × Out := setNumber p op.kind op.obj op.n
 /-- a history of number assignments (rejected ones leave the numbers as they are and go on) -/
 def run (p : Prob) (ops : List Op) : Prob := ops.foldl (fun p op => (step p op).1) p
 
+/-! ## Operations that are not number assignments and keep every reference
+
+C04's histories may contain, between the renumberings and before the write, operations of the API that do not
+assign a number and do not take a reference away: `problem.add_cell_children_to_problem()`, removing and appending
+the last member of a collection again, and `cell.geometry = cell.geometry & ±surface` / `& ~cell` (adds one leaf).
+All of them reach `link_to_problem` of existing objects.  In the code that method only sets `_problem`: the links
+(`Surface._transform`, `Surface._periodic_surface`, ...) are resolved ONCE after reading (`link`) and never
+looked up by number again. -/
+
+/-- mcnp_object.py:MCNP_Object.link_to_problem (`Surface`, `Material`, `Transform` do not override it):
+    `self._problem = problem` — the pointer fields of the surface are what they were -/
+def surfaceLinkToProblem (p : Prob) (s : ObjId) : SurfL := p.surf s
+
+/-- Python `sorted(objects)` with `__lt__` = `number <` (surface.py:Surface.__lt__, data_input.py:DataInput.__lt__
+    inside one mnemonic): stable insertion -/
+def insertByNum (num : ObjId → Int) (o : ObjId) : List ObjId → List ObjId
+  | [] => [o]
+  | x :: t => if num o ≤ num x then o :: x :: t else x :: insertByNum num o t
+
+def sortByNum (num : ObjId → Int) (l : List ObjId) : List ObjId := l.foldr (insertByNum num) []
+
+/-- `unique(objects)` of mcnp_problem.py:add_cell_children_to_problem: the first occurrence of every object, by identity -/
+def uniqueById : List ObjId → List ObjId → List ObjId
+  | acc, [] => acc
+  | acc, o :: t => if o ∈ acc then uniqueById acc t else uniqueById (acc ++ [o]) t
+
+/-- `Surfaces(objects, problem=self)` + `obj.link_to_problem(self)` for every member: a new collection of the same
+    objects (the numbers live in the objects), cache filled by `__init__`; `none` = `NumberConflictError` -/
+def rebuild (s : St) (os : List ObjId) : Option St :=
+  if (os.map s.num).Nodup then
+    some { s with owned := true, objs := os, cache := setAll s.num [] os, link := fun x => if x ∈ os then true else s.link x }
+  else none
+
+/-- `cell.surfaces` of the cells in order: the surface leaves of the geometries -/
+def cellSurfaces (p : Prob) : List ObjId :=
+  p.cells.objs.flatMap (fun c => ((p.cell c).geom.filter (fun l => !l.isCell)).map (·.target))
+
+/-- mcnp_problem.py:MCNP_Problem.add_cell_children_to_problem — the surfaces, materials and transforms of the problem
+    and of its cells, `unique` by identity and `sorted` by number, become the new collections (all built before any
+    is replaced: a number conflict changes nothing); every member is linked to the problem again
+    (`surfaceLinkToProblem`: no pointer field changes). -/
+def addCellChildrenToProblem (p : Prob) : Prob × Out :=
+  let surfaces := sortByNum p.surfs.num (uniqueById [] (p.surfs.objs ++ cellSurfaces p))
+  let materials := sortByNum p.mats.num (uniqueById [] (p.mats.objs ++ p.cells.objs.filterMap (fun c => (p.cell c).mat)))
+  let transforms := sortByNum p.trs.num (uniqueById [] (p.trs.objs ++ (cellSurfaces p).filterMap (fun s => (p.surf s).tr)))
+  match rebuild p.surfs surfaces, rebuild p.mats materials, rebuild p.trs transforms with
+  | some s', some m', some t' => ({ p with surfs := s', mats := m', trs := t', surf := surfaceLinkToProblem p }, .ok)
+  | _, _, _ => (p, .err .numberConflict)
+
+/-- `cell.geometry = cell.geometry & ±surface` / `& ~cell` (cell.py:Cell.geometry setter,
+    half_space.py:HalfSpace._add_new_children_to_cell): one more leaf behind the others; a divider that is new to the
+    cell is appended to `cell.surfaces` / `cell.complements` (free-standing collections) and linked to the problem —
+    no pointer field of the divider changes -/
+def addLeaf (p : Prob) (c : ObjId) (l : Leaf) : Prob :=
+  { p with cell := fun x => if x = c then { p.cell c with geom := (p.cell c).geom ++ [l] } else p.cell x }
+
+/-- `coll.remove(last); coll.append(last)` on the problem's collection of kind `k` (the collection model of C06) -/
+def reappendLast (p : Prob) (k : Kind) : Prob × Out :=
+  match (p.coll k).objs.getLast? with
+  | none => (p, .err .indexError)
+  | some o =>
+    let r := Collection.remove (p.coll k) o
+    let a := Collection.append r.1 o
+    (p.setColl k a.1, a.2)
+
+/-- one operation of a history: a number assignment or one of the reference-preserving operations -/
+inductive Edit
+  | num (op : Op)
+  | relink
+  | addLeaf (c : ObjId) (l : Leaf)
+
+def stepE (p : Prob) : Edit → Prob × Out
+  | .num op => step p op
+  | .relink => addCellChildrenToProblem p
+  | .addLeaf c l => (addLeaf p c l, .ok)
+
+def runE (p : Prob) (es : List Edit) : Prob := es.foldl (fun p e => (stepE p e).1) p
+
 /-! ## The written file (numbers only; the types are `Spec/Refs.lean`'s: the file is the interface) -/
 
 /-- half_space.py:UnitHalfSpace._update_node — `self._node.value = self.divider.number` -/
